@@ -548,6 +548,14 @@ class SymBytes:
         return BBytes(self.nbytes, self.bit)
 
 
+class PStr:
+    """a caller-supplied *string* operand known only through the bits it promotes to
+    (promote(x) is uninterpreted: content depends only on the operands' bits)"""
+
+    def __init__(self, view):
+        self.view = view
+
+
 class SStr:
     """string whose characters are a function of a bit view (bin / hex / oct digits)"""
 
@@ -953,7 +961,7 @@ class _TypeBuiltin(Builtin):
         if n == 'bool':
             return isinstance(x, (bool, SBool))
         if n == 'str':
-            return isinstance(x, (str, SStr))
+            return isinstance(x, (str, SStr, PStr))
         if n == 'float':
             return isinstance(x, (float, SFloat))
         if n == 'bytes':
